@@ -99,34 +99,44 @@ impl RData {
 //%contract
         ensures r == (*self is Update0)
 //%end
-    // ASSUMED: the per-type RDATA decoders return (they own their sub-decoder, so they cannot move the
-    // parent); the decoders not under contract are listed in the evidence assumptions
+    // contract proved for the real RData::read (dispatcher + every per-type decoder) in unit rdata_plain; the
+    // same clauses are assumed here over this unit's collapsed RecordType / RData stand-ins
     #[verifier::external_body]
     pub fn read(decoder: BinDecoder<'_>, record_type: RecordType) -> (r: Result<RData, DecodeError>)
         requires decoder.wf()
-        ensures r matches Ok(d) ==> rtype_of(d) == record_type || rtype_of(d) == RecordType::Other(0)
+        ensures r matches Ok(d) ==> ((d is OPT) == (record_type is OPT)) && ((d is TSIG) == (record_type is TSIG))
+            && ((d matches RData::DNSSEC(DNSSECRData::SIG(_))) == (record_type is SIG)) && !(d is Update0),
     { unimplemented!() }
 }
 impl RecordType {
+    // record_type.rs `impl From<u16> for RecordType`: exhaustive match (ASSUMED total)
     #[verifier::external_body]
-    pub fn from_u16(v: u16) -> (r: RecordType) { unimplemented!() }
-    // record_type.rs: read_u16 then From<u16> (the pipeline uses fn-item arguments to map)
-    pub fn read(decoder: &mut BinDecoder<'_>) -> (r: Result<RecordType, DecodeError>)
+    pub fn from(v: u16) -> (r: RecordType) { unimplemented!() }
+//%fn crates/proto/src/rr/record_type.rs :: impl BinDecodable<'_> for RecordType :: read
+//%novis
+//%sub1 "fn read" => "pub fn read" # R-vis: trait-impl method placed in an inherent impl
+//%sub1 ".map( Restrict::unverified, )" => ".map(|v: Restrict<u16>| -> (o: u16) ensures o == v.0 { v.unverified() })" # R-shim: method path used as a function value is eta-expanded
+//%sub1 ".map(Self::from)" => ".map(|v: u16| -> (o: RecordType) { RecordType::from(v) })" # R-shim: eta-expanded
+//%contract
         requires old(decoder).wf()
         ensures final(decoder).wf(), final(decoder).buf() == old(decoder).buf(),
             match r { Ok(_) => final(decoder).idx() == old(decoder).idx() + 2, Err(_) => final(decoder).idx() == old(decoder).idx() }
-    { match decoder.read_u16() { Ok(v) => Ok(RecordType::from_u16(v.unverified())), Err(e) => Err(e) } }
+//%end
 }
 impl DNSClass {
+    // dns_class.rs `impl From<u16> for DNSClass`: exhaustive match (ASSUMED total)
     #[verifier::external_body]
-    pub fn from_u16(v: u16) -> (r: DNSClass) { unimplemented!() }
+    pub fn from(v: u16) -> (r: DNSClass) { unimplemented!() }
     #[verifier::external_body]
     pub fn for_opt(v: u16) -> (r: DNSClass) { unimplemented!() }
-    pub fn read(decoder: &mut BinDecoder<'_>) -> (r: Result<DNSClass, DecodeError>)
+//%fn crates/proto/src/rr/dns_class.rs :: impl BinDecodable<'_> for DNSClass :: read
+//%novis
+//%sub1 "fn read" => "pub fn read" # R-vis
+//%contract
         requires old(decoder).wf()
         ensures final(decoder).wf(), final(decoder).buf() == old(decoder).buf(),
             match r { Ok(_) => final(decoder).idx() == old(decoder).idx() + 2, Err(_) => final(decoder).idx() == old(decoder).idx() }
-    { match decoder.read_u16() { Ok(v) => Ok(DNSClass::from_u16(v.unverified())), Err(e) => Err(e) } }
+//%end
 }
 
 // ---- Record::read: framing by RDLENGTH ----
@@ -304,17 +314,25 @@ impl Message {
 
 // ---- the server-side request reader (message_request.rs): same section loops, one question ----
 pub struct LowerQuery { pub original: Query }
-// lower_query.rs: `Query::read(decoder).map(Self::from)`; From<Query> only folds the name's case
-pub fn vp_lower_query_read<'r>(decoder: &mut BinDecoder<'r>) -> (r: Result<LowerQuery, DecodeError>)
+impl LowerQuery {
+    // lower_query.rs `impl From<Query> for LowerQuery`: folds the name's case and stores the query (ASSUMED total)
+    #[verifier::external_body] pub fn from(query: Query) -> LowerQuery { unimplemented!() }
+}
+//%fn crates/proto/src/op/lower_query.rs :: impl<'r> BinDecodable<'r> for LowerQuery :: read
+//%rename vp_lower_query_read<'r>
+//%sub1 "Result<Self, DecodeError>" => "Result<LowerQuery, DecodeError>" # R-sel: trait-impl method pulled out as a free fn
+//%sub1 "Ok(Self::from(original))" => "Ok(LowerQuery::from(original))" # R-sel
+//%sub1 "Query::read(decoder)" => "query_read(decoder)" # R-sel
+//%contract
     requires old(decoder).wf()
     ensures final(decoder).wf(), final(decoder).buf() == old(decoder).buf(), final(decoder).idx() >= old(decoder).idx(),
         r is Ok ==> final(decoder).idx() >= old(decoder).idx() + 5,
-{ match query_read(decoder) { Ok(q) => Ok(LowerQuery { original: q }), Err(e) => Err(e) } }
+//%end
 pub struct VpBoxedBytes { pub v: Vec<u8> }
 pub struct Queries { pub inner: LowerQuery, pub original: VpBoxedBytes }
 impl Queries {
 //%fn crates/proto/src/op/message_request.rs :: impl Queries :: read
-//%sub1 "LowerQuery::read(decoder)?" => "vp_lower_query_read(decoder)?" # R-sel: call of the (modelled) trait method
+//%sub1 "LowerQuery::read(decoder)?" => "vp_lower_query_read(decoder)?" # R-sel: call of the pulled-out trait method
 //%sub1 ".to_vec() .into_boxed_slice()" => ".vp_to_boxed()" # R-shim: <[u8]>::to_vec + Vec::into_boxed_slice (copy of the bytes)
 //%contract
         requires old(decoder).wf()
